@@ -80,8 +80,10 @@ def gen_case(rng, i, tier):
     # attributes on the element (also in the xml namespace: their prefix counts when the element is measured against the
     # line - seeded C19-8)
     attrs = rng.choice([None, None, None, "plain", "xml", "xml", "both"])
-    case = {"w": w, "words": words, "indent": indent, "depth": depth, "chained": chained, "pad": pad, "attrs": attrs}
-    if attrs and rng.random() < 0.6 and not chained and not pad:
+    # ... or the element itself in a namespace that is written with a (generated) prefix (seeded C19-9)
+    pns = depth >= 1 and rng.random() < 0.25
+    case = {"w": w, "words": words, "indent": indent, "depth": depth, "chained": chained, "pad": pad, "attrs": attrs, "pns": pns}
+    if (attrs or pns) and rng.random() < 0.6 and not chained and not pad:
         # the one-line form is 1-6 columns too long for the line
         text = esc(" ".join(words))
         case["w"] = max(1, overhead(case) + len(text) - rng.randint(1, 6))
@@ -96,11 +98,16 @@ def stag(case) -> str:
     """the start tag of the element as it is written (attributes sorted by namespace and name; the xml prefix needs no
     declaration)"""
     at = sorted(ATTRS[case.get("attrs")])
-    return "<p" + "".join(' %s%s="%s"' % ("xml:" if ns else "", name, v) for ns, name, v in at) + ">"
+    return "<" + qname(case) + "".join(' %s%s="%s"' % ("xml:" if ns else "", name, v) for ns, name, v in at) + ">"
+
+
+def qname(case) -> str:
+    """the element sits in a namespace of its own below roots in no namespace: it is written with the generated prefix"""
+    return "ns0:p" if case.get("pns") and case["depth"] >= 1 else "p"
 
 
 def overhead(case) -> int:
-    return len(stag(case)) + len("</p>")
+    return len(stag(case)) + len("</%s>" % qname(case))
 
 
 def pieces(case):
@@ -140,7 +147,7 @@ def build(case):
     from delb import new_tag_node
 
     text = " ".join(case["words"])
-    p = new_tag_node("p", attributes={(ns, name): v for ns, name, v in ATTRS[case.get("attrs")]})
+    p = new_tag_node("p", namespace="urn:n" if case.get("pns") and case["depth"] >= 1 else None, attributes={(ns, name): v for ns, name, v in ATTRS[case.get("attrs")]})
     p.append_children(*pieces(case))
     node = p
     for d in range(case["depth"], 0, -1):
@@ -169,7 +176,7 @@ def body_rows(case, out):
     except ValueError:
         return None
     for b in range(a + 1, len(rows)):
-        if rows[b].startswith(ind * d + "</p>"):
+        if rows[b].startswith(ind * d + "</%s>" % qname(case)):
             return rows[a + 1 : b]
     return None
 
